@@ -235,42 +235,78 @@ Definition opt_z_is (o : option Z) (v : Z) : bool :=
 
 Definition uStand : call := [83; 116; 97; 110; 100]%N.
 
+(* ---- the control skeleton of start_next_row, on a small record so that it can be reasoned about.
+   It mirrors bot.py:402-447 statement by statement. *)
+Record ctl := mkCtl {
+  k_ringing : bool;            (* _is_ringing *)
+  k_rounds : bool;             (* _is_ringing_rounds *)
+  k_opening : bool;            (* _is_ringing_opening_row *)
+  k_left : option Z;           (* _rounds_left_before_method *)
+  k_rows_left : option Z;      (* _rows_left_before_rounds *)
+  k_stand : bool;              (* _should_stand *)
+}.
+
+Inductive start_action := NoStart | Start (call_stand : bool).
+
+(* stop_at_rounds, has_just_rung_rounds, next_stroke (hand?), next_stroke == start_stroke,
+   _check_number_of_bells() *)
+Definition snr_ctl (sar hjr next_hand stroke_ok fits : bool) (k : ctl) : result (ctl * start_action) :=
+  (* if self._stop_at_rounds and has_just_rung_rounds and not self._is_ringing_opening_row *)
+  let stand1 := if sar && hjr && negb (k_opening k) then true else k_stand k in
+  (* if self._rounds_left_before_method == 0: assert ...; start the method *)
+  do '(left1, rounds1, opening1, act) <-
+     (if opt_z_is (k_left k) 0 then
+        if negb stroke_ok then Err EAssert
+        else Ok (None, negb fits, false, Start (negb fits))
+      else Ok (k_left k, k_rounds k, k_opening k, NoStart)) ;;
+  (* if self._rounds_left_before_method is not None: -= 1 *)
+  let left2 := opt_z_dec left1 in
+  (* if next_stroke.is_hand(): if self._should_stand: stand *)
+  let '(stand2, ringing2) := if next_hand && stand1 then (false, false) else (stand1, k_ringing k) in
+  (* if rows_left == 0 or (has_just_rung_rounds and rows_left is not None): rounds *)
+  let '(rows2, rounds2) :=
+    if opt_z_is (k_rows_left k) 0 || (hjr && match k_rows_left k with Some _ => true | None => false end)
+    then (None, true) else (k_rows_left k, rounds1) in
+  let rows3 := opt_z_dec rows2 in
+  Ok ({| k_ringing := ringing2; k_rounds := rounds2; k_opening := opening1; k_left := left2;
+         k_rows_left := rows3; k_stand := stand2 |}, act).
+
+Definition ctl_of (b : bot) : ctl :=
+  {| k_ringing := b_ringing b; k_rounds := b_rounds_flag b; k_opening := b_opening_flag b;
+     k_left := b_rounds_left b; k_rows_left := b_rows_left b; k_stand := b_should_stand b |}.
+Definition set_ctl (b : bot) (k : ctl) : bot :=
+  b <| b_ringing := k_ringing k |> <| b_rounds_flag := k_rounds k |> <| b_opening_flag := k_opening k |>
+    <| b_rounds_left := k_left k |> <| b_rows_left := k_rows_left k |> <| b_should_stand := k_stand k |>.
+
 (* start_next_row(is_first_row) *)
 Definition start_next_row (w : world) (is_first : bool) : hres :=
-  let w := upd_bot w (fun b => b <| b_place := 0 |>
-                                 <| b_row_number := if is_first then 0 else S (b_row_number b) |>
-                                 <| b_calls := [] |>) in
-  let b := w_bot w in
-  let has_just_rung_rounds := row_eqb (b_row b) (b_rounds b) in
-  let next_stroke := stroke_of_row (b_row_number b) in
-  let w := if b_stop_at_rounds b && has_just_rung_rounds && negb (b_opening_flag b)
-           then upd_bot w (fun b => b <| b_should_stand := true |>) else w in
-  let w := match b_rounds_left (w_bot w) with
-           | Some k => upd_bot w (fun b => b <| b_calls :=
-                         match dict_get Z.eqb (gen_early_calls (b_gen b)) k with
-                         | Some (c :: cs) => c :: cs | _ => [] end |>)
-           | None => w
-           end in
-  hthen (if opt_z_is (b_rounds_left (w_bot w)) 0 then
-           if negb (Bool.eqb next_stroke (gen_start_stroke (b_gen (w_bot w)))) then (w, Some EAssert)
-           else
-             let w := upd_bot w (fun b => b <| b_rounds_left := None |> <| b_rounds_flag := false |>
-                                            <| b_opening_flag := false |>) in
-             let w := if negb (check_bells w (b_gen (w_bot w)))
-                      then upd_bot (make_call w uStand) (fun b => b <| b_rounds_flag := true |>)
-                      else w in
-             hok (upd_bot w (fun b => b <| b_gen := gen_reset (b_gen b) |>))
-         else hok w)
-  (fun w =>
-  let w := upd_bot w (fun b => b <| b_rounds_left := opt_z_dec (b_rounds_left b) |>) in
-  let w := if next_stroke && b_should_stand (w_bot w)
-           then upd_bot w (fun b => b <| b_should_stand := false |> <| b_ringing := false |>) else w in
-  let w := if opt_z_is (b_rows_left (w_bot w)) 0
-              || (has_just_rung_rounds && match b_rows_left (w_bot w) with Some _ => true | None => false end)
-           then upd_bot w (fun b => b <| b_rows_left := None |> <| b_rounds_flag := true |>) else w in
-  let w := upd_bot w (fun b => b <| b_rows_left := opt_z_dec (b_rows_left b) |>) in
-  if negb (b_ringing (w_bot w)) then hok w
-  else hthen (generate_next_row w) (fun w => hok (expect_loop w (b_row (w_bot w)) 0))).
+  let b0 := w_bot w in
+  let rn := if is_first then 0 else S (b_row_number b0) in
+  let has_just_rung_rounds := row_eqb (b_row b0) (b_rounds b0) in
+  let next_stroke := stroke_of_row rn in
+  (* self._calls = [] ; then the early calls of the row generator while the counter runs *)
+  let calls := match b_rounds_left b0 with
+               | Some k => match dict_get Z.eqb (gen_early_calls (b_gen b0)) k with
+                           | Some (c :: cs) => c :: cs | _ => [] end
+               | None => [] end in
+  let w := upd_bot w (fun b => b <| b_place := 0 |> <| b_row_number := rn |> <| b_calls := calls |>) in
+  match snr_ctl (b_stop_at_rounds b0) has_just_rung_rounds next_stroke
+                (Bool.eqb next_stroke (gen_start_stroke (b_gen b0))) (check_bells w (b_gen b0))
+                (ctl_of b0) with
+  | Err e => (w, Some e)
+  | Ok (k, act) =>
+      let w := match act with
+               | Start true => make_call w uStand
+               | _ => w
+               end in
+      let w := upd_bot w (fun b => set_ctl b k) in
+      let w := match act with
+               | Start _ => upd_bot w (fun b => b <| b_gen := gen_reset (b_gen b) |>)
+               | NoStart => w
+               end in
+      if negb (b_ringing (w_bot w)) then hok w
+      else hthen (generate_next_row w) (fun w => hok (expect_loop w (b_row (w_bot w)) 0))
+  end.
 
 (* ------------------------------------------------------------------ callbacks *)
 (* Bot._on_size_change (invoke_on_reset) *)
